@@ -31,9 +31,20 @@ def fan_net(k, nvars=1):
     return assign_ids(root)
 
 
+def clt_product_net(rs):
+    """products whose children are a Chow-Liu leaf (two columns) and univariate leaves: all leaves of one layer are reached by the
+    same rows"""
+    def comp():
+        clt = S.rand_clt(rs, [0, 1])
+        return Product(children=[clt, Bernoulli(2, float(rs.uniform(0.2, 0.8))), Bernoulli(3, float(rs.uniform(0.2, 0.8)))])
+    w = rs.dirichlet(np.ones(2)).astype(np.float32)
+    return assign_ids(Sum(children=[comp(), comp()], weights=(w / w.sum()).astype(np.float32)))
+
+
 def random_dag(rs):
     nv = int(rs.randint(2, 5))
-    root = S.rand_spn(rs, list(range(nv)), depth=int(rs.randint(2, 5)), kinds=('bern', 'cat'), share=0.6)
+    clt = bool(rs.rand() < 0.4)          # multivariate (Chow-Liu) leaves: their top-down step touches several columns of x
+    root = S.rand_spn(rs, list(range(nv)), depth=int(rs.randint(2, 5)), kinds=('bern',) if clt else ('bern', 'cat'), share=0.6, clt=clt)
     if not getattr(root, 'children', None):
         return fan_net(3)
     return assign_ids(root)
@@ -205,11 +216,40 @@ def history_stream(ctx, quick):
                 return
 
 
+def ambient_backend_check(ctx, quick):
+    """the caller may have selected another joblib backend for its own purposes (joblib.parallel_backend('loky')): the layer-wise
+    passes share arrays between their tasks and must keep running on threads — parallel == sequential under an ambient backend"""
+    import joblib
+    for k in range(2 if quick else 10):
+        rs = np.random.RandomState(np_seed(ctx.sub_rng('ambient', k)))
+        root = fan_net(4, 3) if k == 0 else random_dag(rs)
+        table, order, _, _ = S.export_net(root)
+        dom = S.domain_of(order)
+        Q = np.array([[rs.randint(max(dom[v], 1)) for v in range(len(dom))] for _ in range(7)], dtype=np.float32)
+        Q[rs.rand(*Q.shape) < 0.5] = np.nan
+        rep = dict(kind='c08', table=table_with_py(table, order), rows=np.where(np.isnan(Q), None, Q).tolist(), ambient_backend='loky')
+        ref_ll, ref_m = log_likelihood(root, Q), mpe(root, Q)
+        ctx.count('ambient-backend-runs')
+        try:
+            with joblib.parallel_backend('loky'):
+                b = log_likelihood(root, Q, n_jobs=2)
+                c = mpe(root, Q, n_jobs=2)
+        except Exception as ex:
+            ctx.violation('c08-ambient-backend-raises', f'inside joblib.parallel_backend("loky") the parallel pass (n_jobs=2) raised {type(ex).__name__}: {str(ex)[:150]} '
+                                                        f'while the sequential pass returns', replay=dict(rep, n_jobs=2))
+            return
+        if not np.array_equal(b, ref_ll) or not np.array_equal(np.nan_to_num(c, nan=-9.5), np.nan_to_num(ref_m, nan=-9.5)):
+            ctx.violation('c08-ambient-backend-result', f'inside joblib.parallel_backend("loky"), n_jobs=2 gives {np.asarray(b).reshape(-1)[:3].tolist()} but the sequential pass '
+                                                        f'{np.asarray(ref_ll).reshape(-1)[:3].tolist()}', replay=dict(rep, n_jobs=2))
+            return
+
+
 def run(ctx):
     quick = ctx.tier == 'quick'
     if E._verif_hooks is None:
         raise Infra('verification hooks are not active in deeprob.spn.algorithms.evaluation (DEEPROB_KIT_VERIF=1 and PYTHONPATH must contain /verif/hooks)')
-    nets = [('fan2', fan_net(2)), ('fan5', fan_net(5)), ('fan16', fan_net(16)), ('fan4x3', fan_net(4, 3))]
+    nets = [('fan2', fan_net(2)), ('fan5', fan_net(5)), ('fan16', fan_net(16)), ('fan4x3', fan_net(4, 3)),
+            ('clt-under-product', clt_product_net(np.random.RandomState(np_seed(ctx.sub_rng('cltprod')))))]
     for k in range(10 if quick else 150):
         rs = np.random.RandomState(np_seed(ctx.sub_rng('dag', k)))
         nets.append((f'dag{k}', random_dag(rs)))
@@ -283,6 +323,8 @@ def run(ctx):
             return
     if ctx.n_new() == 0:
         history_stream(ctx, quick)
+    if ctx.n_new() == 0:
+        ambient_backend_check(ctx, quick)
     if discipline_broken is not None:
         name, label, ans, rep, bad_root, bad_ncols = discipline_broken
         # the theorem topdown_atomic_schedule_indep no longer applies: by nonatomic_lost_update an interleaving of the recorded
